@@ -194,3 +194,33 @@ package scheduler
 //@   ensures [C09 read_never_fails] err == nil
 //@   loop 0 step [C09 unsuspended_dag_gets_all_its_entries] len(entries) == iter(len(entries)) ||
 //@        (exists d *dag.DAG :: len(entries) == iter(len(entries)) + len(d.Schedule) + len(d.StopSchedule) + len(d.RestartSchedule))
+
+// ---------------------------------------------------------------------------------------------
+// The DAG table of the entry reader: a file that does not load never disturbs the entries of the other files,
+// never aborts initialisation or the watch loop, and never leaves the table lock held.
+
+//@ fn (*entryReaderImpl).initDags(er) (err)
+//@   props C09
+//@   requires er.dags != nil
+//@   modifies contents(er.dags), heap(alloc), heap(elems(string)), ghost obs.meta_calls, ghost obs.meta_err, ghost obs.meta_dag
+//@   ensures [C09 init_survives_bad_files] obs.meta_calls != old(obs.meta_calls) ==> err == nil
+//@   loop 0 step [C09 bad_file_leaves_table_unchanged] obs.meta_calls != iter(obs.meta_calls) && obs.meta_err != nil ==>
+//@        (forall k string :: has(er.dags, k) == iter(has(er.dags, k)) && er.dags[k] == iter(er.dags[k]))
+//@   loop 0 step [C09 good_file_is_registered_under_its_name] obs.meta_calls != iter(obs.meta_calls) && obs.meta_err == nil ==>
+//@        (exists k string :: has(er.dags, k) && er.dags[k] == obs.meta_dag &&
+//@             (forall o string :: o != k ==> (has(er.dags, o) == iter(has(er.dags, o)) && er.dags[o] == iter(er.dags[o]))))
+//@   loop 0 step [C09 one_load_per_file] obs.meta_calls == iter(obs.meta_calls) || obs.meta_calls == iter(obs.meta_calls) + 1
+
+//@ fn (*entryReaderImpl).watchDags(er, done)
+//@   props C09
+//@   requires er.dags != nil
+//@   modifies *
+//@   ensures [C09 watcher_exits_without_the_lock] lk.depth == old(lk.depth)
+//@   loop 0 invariant [C09 no_lock_held_between_events] lk.depth == old(lk.depth)
+//@   loop 0 invariant er == old(er) && er.dags == old(er.dags)
+//@   loop 0 step [C09 bad_file_leaves_table_unchanged] obs.meta_calls != iter(obs.meta_calls) && obs.meta_err != nil ==>
+//@        (forall k string :: has(er.dags, k) == iter(has(er.dags, k)) && er.dags[k] == iter(er.dags[k]))
+//@   loop 0 step [C09 event_touches_one_entry] exists k string :: forall o string :: o != k ==>
+//@        (has(er.dags, o) == iter(has(er.dags, o)) && er.dags[o] == iter(er.dags[o]))
+//@   loop 0 step [C09 loaded_file_is_registered] obs.meta_calls != iter(obs.meta_calls) && obs.meta_err == nil ==>
+//@        (exists k string :: has(er.dags, k) && er.dags[k] == obs.meta_dag)
